@@ -390,5 +390,4 @@ def params_expr(c):
 
 
 K.FAMILIES["params"] = (gen_params_case, run_params_impl, params_expr)
-if "RunParams" not in K.HEADER:
-    K.HEADER = K.HEADER.replace(" Run.", " Params RunParams Run.")
+K.add_imports("Params", "RunParams")
